@@ -215,6 +215,7 @@ type found struct {
 	Shrunk   json.RawMessage `json:"shrunk,omitempty"`
 	Source   string          `json:"source_sha,omitempty"`
 	Corpus   bool            `json:"from_corpus,omitempty"`
+	Procs    int             `json:"gomaxprocs,omitempty"`
 	Race     *raceInfo       `json:"race_pass,omitempty"`
 	Replay   string          `json:"replay_cmd,omitempty"`
 }
@@ -303,7 +304,14 @@ func runPart(prop, tier string, seed uint64, p part, budgetS int) *partResult {
 				kb, _ := json.Marshal(kf)
 				env = append(env, "SIM_KNOWN="+string(kb))
 			}
-			text, err := runCmd(scratch, env, bin, "-test.run", "^TestSim$", "-test.timeout", "0", "-test.cpu", "1")
+			// the library may consult GOMAXPROCS: half of the workers run with one
+			// P, the others with four (the simulation itself does not depend on it:
+			// selftest-determinism compares 1/4/16)
+			cpu := "1"
+			if w%2 == 1 && !p.Race {
+				cpu = "4"
+			}
+			text, err := runCmd(scratch, env, bin, "-test.run", "^TestSim$", "-test.timeout", "0", "-test.cpu", cpu)
 			st := &workerStats{}
 			b, rerr := os.ReadFile(out)
 			if p.Race && err != nil && strings.Contains(text, "DATA RACE") {
@@ -366,7 +374,16 @@ func tail(s string, n int) string {
 func engineMode(engine string, race bool, mode string, in, out string, extra ...string) (string, error) {
 	bin := buildEngine(engine, race)
 	env := append([]string{"SIM_MODE=" + mode, "SIM_IN=" + in, "SIM_OUT=" + out, "SIM_WATCHDOG_S=900"}, extra...)
-	return runCmd(scratch, env, bin, "-test.run", "^TestSim$", "-test.timeout", "0", "-test.cpu", "1")
+	cpu := "1"
+	if b, err := os.ReadFile(in); err == nil {
+		var f struct {
+			Procs int `json:"gomaxprocs"`
+		}
+		if json.Unmarshal(b, &f) == nil && f.Procs > 1 {
+			cpu = strconv.Itoa(f.Procs)
+		}
+	}
+	return runCmd(scratch, env, bin, "-test.run", "^TestSim$", "-test.timeout", "0", "-test.cpu", cpu)
 }
 
 type replayResult struct {
@@ -662,6 +679,7 @@ func check(prop, tier string) int {
 		cov["runs_per_hour"] = int(float64(evals) / wall * 3600)
 	}
 	cov["budget_cut_short"] = timedOut
+	cov["gomaxprocs_of_worker_processes"] = "1 on even-numbered workers, 4 on odd-numbered ones (the library may consult it; a violation's replay file records the value and is replayed with it)"
 	cov["instrumentation"] = map[string]any{"sites": istats.Sites, "uninstrumented_sites": istats.Uninstr, "source_sha": istats.SourceSHA, "files": istats.Files, "rule_r9_dropped_because_copy_did_not_compile": r9Off}
 	cov["real_vs_stub"] = map[string]string{
 		"real":                         "every line of flyt's root package (instrumented copy of the working tree), Go channels, select, context, encoding/json, reflect",
